@@ -340,3 +340,106 @@ M('c02-static-match-bare-prefix-without-fallback', 'C02', 'R7', STATIC,
 """, """        if self._fallback_filename is None:
             return path.startswith(self._prefix) or path == self._prefix[:-1]
 """)
+
+# ---- wave 7
+COMPILED = 'falcon/routing/compiled.py'
+# R8 (shared with C01 R10): a finder kept across an accepted add_route() hides the new route behind the fallbacks
+M2('c02-finder-kept-when-no-new-node', 'C02', 'R8', [
+    {'file': COMPILED, 'old': """        def insert(nodes: List[CompiledRouterNode], path_index: int = 0) -> None:
+            for node in nodes:
+""", 'new': """        new_nodes: List[CompiledRouterNode] = []
+
+        def insert(nodes: List[CompiledRouterNode], path_index: int = 0) -> None:
+            for node in nodes:
+"""},
+    {'file': COMPILED, 'old': """            nodes.append(new_node)
+            if path_index == len(path) - 1:
+""", 'new': """            nodes.append(new_node)
+            new_nodes.append(new_node)
+            if path_index == len(path) - 1:
+"""},
+    {'file': COMPILED, 'old': """        else:
+            self._find = self._compile_and_find
+""", 'new': """        elif new_nodes:
+            self._find = self._compile_and_find
+"""}], also=('C01',))
+M('c02-finder-kept-for-single-segment-templates', 'C02', 'R8', COMPILED,
+  """        else:
+            self._find = self._compile_and_find
+""", """        elif len(path) > 1:
+            self._find = self._compile_and_find
+""", also=('C01',))
+
+# R2: registration never removes an existing entry
+M('c02-static-purges-same-prefix', 'C02', 'R2', APP,
+  """        self._static_routes.insert(0, (sr, sr, False))
+""", """        self._static_routes = [
+            entry for entry in self._static_routes if entry[0]._prefix != sr._prefix
+        ]
+        self._static_routes.insert(0, (sr, sr, False))
+""")
+M('c02-sink-purges-same-pattern-in-place', 'C02', 'R2', APP,
+  """        self._sinks.insert(0, (prefix, sink, True))
+""", """        self._sinks[:] = [s for s in self._sinks if s[0].pattern != prefix.pattern]
+        self._sinks.insert(0, (prefix, sink, True))
+""")
+M('c02-static-removes-shadowed-in-loop', 'C02', 'R2', APP,
+  """        self._static_routes.insert(0, (sr, sr, False))
+""", """        for entry in list(self._static_routes):
+            if entry[0]._prefix.startswith(sr._prefix):
+                self._static_routes.remove(entry)
+        self._static_routes.insert(0, (sr, sr, False))
+""")
+M('c02-sink-history-capped', 'C02', 'R2', APP,
+  """        self._sinks.insert(0, (prefix, sink, True))
+""", """        self._sinks.insert(0, (prefix, sink, True))
+        del self._sinks[16:]
+""")
+
+# R2 / R3: the rebuild of the combined table, read by abstract evaluation
+M('c02-rebuild-reverse-whole-table', 'C02', 'R2', APP,
+  """        if self._sink_before_static_route:
+            self._sink_and_static_routes = tuple(self._sinks + self._static_routes)  # type: ignore[operator]
+        else:
+            self._sink_and_static_routes = tuple(self._static_routes + self._sinks)  # type: ignore[operator]
+""", """        routes = self._sinks + self._static_routes  # type: ignore[operator]
+        if not self._sink_before_static_route:
+            routes.reverse()
+        self._sink_and_static_routes = tuple(routes)
+""")
+M('c02-rebuild-slice-reverse-in-default-mode', 'C02', 'R2', APP,
+  """        if self._sink_before_static_route:
+            self._sink_and_static_routes = tuple(self._sinks + self._static_routes)  # type: ignore[operator]
+        else:
+            self._sink_and_static_routes = tuple(self._static_routes + self._sinks)  # type: ignore[operator]
+""", """        routes = self._static_routes + self._sinks  # type: ignore[operator]
+        if self._sink_before_static_route:
+            routes = routes[::-1]
+        self._sink_and_static_routes = tuple(routes)
+""")
+M('c02-rebuild-extends-the-static-list-in-place', 'C02', 'R2', APP,
+  """        else:
+            self._sink_and_static_routes = tuple(self._static_routes + self._sinks)  # type: ignore[operator]
+""", """        else:
+            routes = self._static_routes
+            routes += self._sinks  # type: ignore[arg-type]
+            self._sink_and_static_routes = tuple(routes)
+""")
+M('c02-rebuild-pair-selected-by-inverted-option', 'C02', 'R3', APP,
+  """        if self._sink_before_static_route:
+            self._sink_and_static_routes = tuple(self._sinks + self._static_routes)  # type: ignore[operator]
+        else:
+            self._sink_and_static_routes = tuple(self._static_routes + self._sinks)  # type: ignore[operator]
+""", """        first, second = (
+            (self._static_routes, self._sinks)
+            if self._sink_before_static_route
+            else (self._sinks, self._static_routes)
+        )
+        self._sink_and_static_routes = tuple(first + second)  # type: ignore[operator]
+""")
+M('c02-rebuild-drops-sinks-when-static-first', 'C02', 'R3', APP,
+  """        else:
+            self._sink_and_static_routes = tuple(self._static_routes + self._sinks)  # type: ignore[operator]
+""", """        else:
+            self._sink_and_static_routes = tuple(self._static_routes + self._sinks[1:])  # type: ignore[operator]
+""")
